@@ -313,6 +313,9 @@ def make_owned_store(root, cfg, mp_mode=False):
 
 # ---- choosers -----------------------------------------------------------------------------------
 
+UNTIL_BLOCKED = 10 ** 6
+
+
 def preemption_chooser(order, preemptions):
     """Non-preemptive by default: the running thread continues while it is runnable; when it blocks or
     finishes the next runnable thread in `order` runs.  `preemptions` = list of (thread_step, to):
@@ -325,6 +328,9 @@ def preemption_chooser(order, preemptions):
         rank = {i: n for n, i in enumerate(order)}
         by_rank = sorted(runnable, key=lambda t: rank.get(t.idx, 99))
         if last is None or last not in runnable:
+            # the running thread blocked or finished: a pending "run until it blocks" marker is consumed
+            if last is not None and pre and pre[0][0] >= UNTIL_BLOCKED:
+                pre.pop(0)
             state["run"] = 0
             return by_rank[0]
         if pre and state["run"] >= pre[0][0]:
